@@ -66,7 +66,7 @@ SPEC = dict(
              'paths, are covered by the monitor only.',
         technique='Coq proofs on codecs and on a register-file model of write_setting / read_setting + correspondences + write/read-back monitor',
         design_ref='DESIGN.md section 5 (C17)'),
-    stages=[SP.stage_encoders, stage_settings_model, SP.inv_stage('write-readback-monitor', IM.mon_write)],
+    stages=[SP.stage_encoders, stage_settings_model, SP.inv_stage('write-readback-monitor', IM.mon_write, e2e=True)],
     theorems=['C17_write_read_long', 'C17_generated_shapes_ok2', 'C17_write_read_integer', 'C17_write_read_integer_signed', 'C17_write_read_byte_high', 'C17_write_read_byte_low', 'C17_write_read_decimal', 'C17_generated_shapes_ok', 'C17_generated_settings_fit', 'C17_integer', 'C17_integer_signed', 'C17_byte_high', 'C17_byte_low', 'C17_decimal'],
     rule='every setting with an encoder x boundary + seeded values (all 256 values of one-byte settings and all multiples of the resolution in thorough) '
          'x prior register contents x {ET RTU, ET TCP, DT, ES AA55, ES Modbus}',
